@@ -2,6 +2,17 @@
 HOOK_COMMITS = ["645c65a"]
 NOT_APPLICABLE = {}
 LEVELS = {
+    "C01": {
+        "text": "Proof: C01_exact (a key is derived exactly when t distinct valid shares have arrived, never from fewer), C01_correct (every "
+                "derived key is f(0)•H, the epoch secret key matching the eon public key, whichever t shares came first) and "
+                "C01_order_independent (invalid, duplicate and reordered shares never alter the result) hold for every field, module, "
+                "polynomial, (n,t) and every finite share sequence, by induction over the sequence with the Lagrange identity from "
+                "Mathlib. The model is tied to keyper/epochkg by exhaustive small-scope and sampled differential runs against the real "
+                "EpochKG with blst, including a trial decryption with each derived key.",
+        "design_ref": "DESIGN.md §4 C01",
+        "note": "Trusted: Lean kernel + Mathlib; correspondence harness; pairing abstraction (verify ↔ share = f(x_i)•H); Z/q field for the executable instance.",
+        "technique": "Lean 4 + Mathlib theorem (induction over share sequences, Lagrange interpolation) + differential runs against the real EpochKG",
+    },
     "C06": {
         "text": "Proof: C06_gnosis_iff is an IFF characterisation of the Gnosis signature validator for every keyper set, threshold, signer "
                 "list, signature list and every signature scheme (exactly threshold strictly increasing in-range signers, one signature "
